@@ -898,3 +898,19 @@ pub fn update_emissions_destination(account: Pubkey, authority: Pubkey, destinat
         vec![],
     )
 }
+
+pub fn init_staked_settings(group: Pubkey, admin: Pubkey, fee_payer: Pubkey, settings: marginfi::instructions::StakedSettingsConfig) -> Ix {
+    mk(
+        A::InitStakedSettings { marginfi_group: group, admin, fee_payer, staked_settings: staked_settings_key(&group), system_program: system_program::id() },
+        I::InitStakedSettings { settings },
+        vec![],
+    )
+}
+
+pub fn edit_staked_settings(group: Pubkey, admin: Pubkey, settings: marginfi::instructions::StakedSettingsEditConfig) -> Ix {
+    mk(A::EditStakedSettings { marginfi_group: group, admin, staked_settings: staked_settings_key(&group) }, I::EditStakedSettings { settings }, vec![])
+}
+
+pub fn propagate_staked_settings(group: Pubkey, bank: Pubkey, rem: Vec<AccountMeta>) -> Ix {
+    mk(A::PropagateStakedSettings { marginfi_group: group, staked_settings: staked_settings_key(&group), bank }, I::PropagateStakedSettings {}, rem)
+}
